@@ -196,6 +196,13 @@ func oneCase(run *rep.Run, rng *rand.Rand, f *fw.FW, _ interface{}, a []string, 
 	sum := sha256.Sum256(body)
 	sha := hex.EncodeToString(sum[:])
 	hdr := map[string]string{"X-Custom-A": "va-" + nonce, "X-Custom-B": "vb " + nonce}
+	// Olla behind another proxy: the forwarding chain the serving endpoint sees must be the same
+	// whether or not earlier candidates failed (client's values + Olla's single addition)
+	fwdVia, fwdXFF := "1.1 edge-"+nonce, "203.0.113.7"
+	chained := rng.Intn(2) == 0
+	if chained {
+		hdr["Via"], hdr["X-Forwarded-For"] = fwdVia, fwdXFF
+	}
 	if strings.HasSuffix(bodyClass, "-chunked") {
 		hdr["X-Verif-Upload"] = "chunked" // sent without a declared length
 	}
@@ -288,8 +295,24 @@ func oneCase(run *rep.Run, rng *rand.Rand, f *fw.FW, _ interface{}, a []string, 
 					run.Violation("C04/replayed-request-differs/body/"+fkS, fmt.Sprintf("serving endpoint received %d body bytes, client sent %d", r.BodyLen, len(body)), wit)
 				}
 				for k, v := range hdr {
+					if k == "Via" || k == "X-Forwarded-For" {
+						continue
+					}
 					if got := r.Header(k); len(got) != 1 || got[0] != v {
 						run.Violation("C04/replayed-request-differs/headers", fmt.Sprintf("header %s arrived as %v", k, got), wit)
+					}
+				}
+				if chained {
+					for k, first := range map[string]string{"Via": fwdVia, "X-Forwarded-For": fwdXFF} {
+						var parts []string
+						for _, line := range r.Header(k) {
+							for _, p := range strings.Split(line, ",") {
+								parts = append(parts, strings.TrimSpace(p))
+							}
+						}
+						if len(parts) != 2 || parts[0] != first {
+							run.Violation("C04/replayed-request-differs/forwarding-chain/"+fkS, fmt.Sprintf("after %d attempt(s) the serving endpoint received %s = %q; a request served at the first attempt carries %q plus Olla's one entry", len(c.Attempts), k, parts, first), wit)
+						}
 					}
 				}
 				if a[at.Backend] != "ok" {
